@@ -74,8 +74,16 @@ type Ctx struct {
 	totalViol   int64
 	shard       *shardSpec
 	shardCalls  map[string]int
-	rule        []string
-	notes       []string
+
+	// ReportAs: print violations / write replays under this property id (a
+	// check of one property re-running another property's enumeration in a
+	// different build configuration). BuildTags is recorded in replay files.
+	ReportAs   string
+	BuildTags  string
+	NoEvidence bool
+	DigestFile string
+	rule       []string
+	notes      []string
 }
 
 type SubStat struct {
@@ -204,12 +212,45 @@ func NewSub[C any](name string, eval func(w *Worker, c C) *Fail) *Sub[C] {
 func safeEval[C any](eval func(w *Worker, c C) *Fail, w *Worker, c C) (f *Fail) {
 	defer func() {
 		if r := recover(); r != nil {
-			buf := make([]byte, 2048)
-			buf = buf[:runtime.Stack(buf, false)]
-			f = Failf("unexpected panic: %v\n%s", r, buf)
+			f = PanicToFail(r)
 		}
 	}()
 	return eval(w, c)
+}
+
+// PanicToFail classifies a recovered panic by where it was raised: inside
+// the library under test (a failure of the case being run) or inside the
+// harness (a machinery error: exit 2, never a VIOLATION). Must be called from
+// the deferred function that recovered.
+func PanicToFail(r any) *Fail {
+	buf := make([]byte, 16384)
+	buf = buf[:runtime.Stack(buf, false)]
+	st := string(buf)
+	// frames after the panic call, innermost first
+	origin := "harness"
+	if i := strings.Index(st, "panic("); i >= 0 {
+		rest := st[i:]
+		lines := strings.Split(rest, "\n")
+		for _, ln := range lines[2:] {
+			if strings.HasPrefix(ln, "\t") || ln == "" {
+				continue
+			}
+			if strings.HasPrefix(ln, "runtime.") || strings.HasPrefix(ln, "panic(") {
+				continue
+			}
+			if strings.HasPrefix(ln, "filippo.io/edwards25519") {
+				origin = "library"
+			}
+			break
+		}
+	}
+	if origin != "library" {
+		InternalError("panic raised in harness code: %v\n%s", r, st)
+	}
+	if len(st) > 1800 {
+		st = st[:1800]
+	}
+	return Failf("the library panicked on inputs that are valid for this case: %v\n%s", r, st)
 }
 
 // Run evaluates gen(i) for every i in [0,n) on all cores. Completed index
@@ -461,6 +502,13 @@ func (c *Ctx) Finish(verifDir string) {
 	trimViolations(c)
 	kf := loadKnown(verifDir)
 	recorded := len(c.viol)
+	label := c.Prop
+	if c.ReportAs != "" {
+		label = c.ReportAs
+	}
+	if c.DigestFile != "" {
+		c.writeDigest()
+	}
 	var confirmed []violation
 	knownHits := map[string]bool{}
 	perSubConfirmed := map[string]int{}
@@ -474,7 +522,7 @@ func (c *Ctx) Finish(verifDir string) {
 			continue
 		}
 		perSubTried[v.Sub]++
-		all, any := confirmFresh(verifDir, v, c.Prop)
+		all, any := confirmFresh(verifDir, v, label)
 		if !all {
 			if any {
 				flaky++
@@ -484,10 +532,10 @@ func (c *Ctx) Finish(verifDir string) {
 			}
 			continue
 		}
-		key := c.Prop + " " + caseKey(v.Sub, v.Case)
+		key := label + " " + caseKey(v.Sub, v.Case)
 		if line, ok := kf.known[key]; ok {
 			if !knownHits[key] {
-				fmt.Printf("KNOWN-FINDING: property=%s %s\n", c.Prop, line)
+				fmt.Printf("KNOWN-FINDING: property=%s %s\n", label, line)
 				knownHits[key] = true
 			}
 			continue
@@ -499,7 +547,9 @@ func (c *Ctx) Finish(verifDir string) {
 		c.Note(fmt.Sprintf("%d recorded failures did not reproduce in a fresh process (collateral of an earlier violating case in the same process) and were dropped", dropped))
 	}
 	if recorded > 0 && len(confirmed) == 0 && len(knownHits) == 0 {
-		c.writeEvidence(verifDir, 0, 0)
+		if !c.NoEvidence {
+			c.writeEvidence(verifDir, 0, 0)
+		}
 		InternalError("%d failures were recorded but none reproduced 5/5 in fresh processes (machinery nondeterminism); first: %s: %s", recorded, c.viol[0].Sub, firstLine(c.viol[0].Msg))
 	}
 	if os.Getenv("VERIF_VERBOSE") != "" {
@@ -510,22 +560,24 @@ func (c *Ctx) Finish(verifDir string) {
 	var replayPaths []string
 	for _, v := range confirmed {
 		h := sha256.Sum256(append([]byte(v.Sub), v.Case...))
-		name := fmt.Sprintf("%s-%s.json", c.Prop, hex.EncodeToString(h[:6]))
+		name := fmt.Sprintf("%s-%s.json", label, hex.EncodeToString(h[:6]))
 		path := filepath.Join(outDir(verifDir), "replays", name)
 		os.MkdirAll(filepath.Dir(path), 0o755)
-		b, _ := json.MarshalIndent(map[string]any{"property": c.Prop, "sub": v.Sub, "case": v.Case, "msg": v.Msg,
-			"key": caseKey(v.Sub, v.Case)}, "", " ")
+		b, _ := json.MarshalIndent(map[string]any{"property": label, "sub": v.Sub, "case": v.Case, "msg": v.Msg,
+			"key": caseKey(v.Sub, v.Case), "build_tags": c.BuildTags}, "", " ")
 		if err := os.WriteFile(path, b, 0o644); err != nil {
 			InternalError("cannot write replay file: %v", err)
 		}
 		replayPaths = append(replayPaths, path)
-		fmt.Printf("VIOLATION property=%s replay=%s\n", c.Prop, path)
+		fmt.Printf("VIOLATION property=%s replay=%s\n", label, path)
 		fmt.Printf("  sub=%s index=%d: %s\n", v.Sub, v.Index, firstLine(v.Msg))
 	}
-	c.writeEvidence(verifDir, int(c.totalViol), len(knownHits))
+	if !c.NoEvidence {
+		c.writeEvidence(verifDir, int(c.totalViol), len(knownHits))
+	}
 	el := time.Since(c.Start).Seconds()
 	if len(confirmed) > 0 {
-		fmt.Printf("FAIL property=%s tier=%s failing-cases=%d confirmed-and-written=%d wall=%.1fs\n", c.Prop, c.Tier, c.totalViol, len(replayPaths), el)
+		fmt.Printf("FAIL property=%s (run of %s, build tags %q) tier=%s failing-cases=%d confirmed-and-written=%d wall=%.1fs\n", label, c.Prop, c.BuildTags, c.Tier, c.totalViol, len(replayPaths), el)
 		os.Exit(1)
 	}
 	fmt.Printf("PASS property=%s tier=%s evaluations=%d states=%d transitions=%d exhaustive=%v wall=%.1fs\n",
@@ -638,4 +690,51 @@ func Subs() []string {
 	}
 	sort.Strings(out)
 	return out
+}
+
+// Digest is the order-independent summary of every value-level observation
+// class ("nontrivial:*") of a run: count and XOR of the observation hashes.
+type Digest struct {
+	Evaluations int64                `json:"evaluations"`
+	Classes     map[string][2]uint64 `json:"classes"`
+}
+
+func (c *Ctx) ComputeDigest() Digest {
+	d := Digest{Evaluations: c.evals, Classes: map[string][2]uint64{}}
+	for cl, m := range c.distinct {
+		if !strings.HasPrefix(cl, "nontrivial:") {
+			continue
+		}
+		var x uint64
+		for k := range m {
+			var v uint64
+			for i := 0; i < 8; i++ {
+				v |= uint64(k[i]) << (8 * i)
+			}
+			x ^= v
+		}
+		d.Classes[cl] = [2]uint64{uint64(len(m)), x}
+	}
+	return d
+}
+
+func (c *Ctx) writeDigest() {
+	b, _ := json.Marshal(c.ComputeDigest())
+	if err := os.WriteFile(c.DigestFile, b, 0o644); err != nil {
+		InternalError("digest: %v", err)
+	}
+}
+
+// Vacuous is a vacuity guard: a degenerate space on a tree without recorded
+// failures is a machinery error (exit 2); with failures it is a consequence
+// of the breakage and is ignored.
+func (c *Ctx) Vacuous(format string, a ...any) {
+	c.mu.Lock()
+	n := c.totalViol
+	c.mu.Unlock()
+	if n > 0 {
+		c.Note("vacuity guard ignored because failures were recorded: " + fmt.Sprintf(format, a...))
+		return
+	}
+	InternalError(format, a...)
 }
